@@ -220,13 +220,6 @@ def rule_4(ctx):
 def rule_5(ctx):
     """After extraction the XLCell held by defined_names and the one in the cells map are *separate* deep copies, so input
     changes applied to both models agree only if set/get go through the cells map (shared with C04.4)."""
-    mm, fn, orig, ext = _extract(ctx)
-    copies = [a for a in walk_local(fn) if isinstance(a, ast.Assign) and isinstance(a.value, ast.Call)
-              and ctx.res.resolve(a.value.func, mm) == 'ext:copy.deepcopy']
-    into_names = [a for a in copies if any(f'{ext}.defined_names' in ast.unparse(t) for t in a.targets)]
-    into_cells = [a for a in copies if any(f'{ext}.cells' in ast.unparse(t) for t in a.targets)]
-    ctx.note(f'extract() deep-copies {len(into_names)} name object(s) and {len(into_cells)} cell object(s) separately: '
-             'name objects and cell objects of the extracted model are not aliases')
     from . import c04
     c04.rule_4(ctx)
 
